@@ -266,7 +266,7 @@ theorem C09_run_two_garbled (ho : GuessOpts o pname) (hreal : o.dryRun = false) 
       intro h0
       have := congrArg List.length h0
       simp at this; omega)
-    hjunk
+    hjunk (fun h => by cases h.1)
 
 end
 
